@@ -298,7 +298,7 @@ def replay(path):
         found = []
         if c.get('skipped'):
             print('  the tape does not load in the reference run any more (%s): nothing to compare' % c['skipped'])
-        elif not c['runs'] or c['runs'][0]['cfg'] != 'default' or c['runs'][0]['data'] != c['expect']:
+        elif not c['key'].startswith('probe/') and (not c['runs'] or c['runs'][0]['cfg'] != 'default' or c['runs'][0]['data'] != c['expect']):
             print('  the tape does not load in the default configuration any more (%s): outside the property'
                   % (c['dropped'] or (c['runs'] and c['runs'][0]['err'])))
         else:
